@@ -1,6 +1,7 @@
 package main
 
 import (
+	"github.com/openfga/language/pkg/go/graph"
 	"fmt"
 	"github.com/openfga/language/pkg/go/transformer"
 	"google.golang.org/protobuf/encoding/protojson"
@@ -361,6 +362,9 @@ func (wc *wCase) classify(r wResult, what string) string {
 	return d
 }
 
+var c06Reused *graph.WeightedAuthorizationModelGraphBuilder
+var c06Prev string
+
 func genWModels(rng *rand.Rand, n int) []*Model {
 	ms := make([]*Model, n)
 	for i := range ms {
@@ -552,6 +556,30 @@ func init() {
 			}
 			if bad {
 				continue
+			}
+			// one builder object reused for every model of the run: what it built before must not matter
+			if c06Reused == nil {
+				c06Reused = graph.NewWeightedAuthorizationModelGraphBuilder()
+			}
+			{
+				var rg *graph.WeightedAuthorizationModelGraph
+				var rerr error
+				rr := wResult{}
+				if p := safely(func() { rg, rerr = c06Reused.Build(wc.pm) }); p != "" {
+					rr = wResult{Err: "panic:" + p, Full: "panic:" + p}
+				} else if rerr != nil {
+					rr = wResult{Err: errClass(rerr), Full: "err"}
+				} else {
+					rr = dumpWGraph(rg, true)
+				}
+				c.Dist("builds_on_a_reused_builder")
+				if rr.Full != ref.Full || (rr.Err != "") != (ref.Err != "") {
+					c.OracleFail("c06:reused-builder", map[string]any{"model": wc.canon, "previous_model": c06Prev},
+						fmt.Sprintf("a builder that has built other models before gives a different result than a fresh one: %q / %q", trunc(ref.Err+" "+ref.Full, 300), trunc(rr.Err+" "+rr.Full, 300)), "")
+					c06Reused = nil
+					continue
+				}
+				c06Prev = wc.canon
 			}
 			// permuted type definitions
 			for k := 0; k < 2; k++ {
